@@ -33,7 +33,8 @@ EXPLANATION = (
     'json.dumps/json.loads only. R6: Struct.__eq__ compares every name of _all_field_names_, '
     'Union.__eq__ tag and value; Attribute.__set__ treats only None on a nullable field as unset. '
     'Decides this structural part, not value equality.'
-    ' R7/R8 (imported from C08-R2/R3 and C10-R5): a value can only round-trip if the generated validators accept every valid value (bounds inclusive, Nullable delegating, constructors carrying every parameter and the Nullable wrap) and every declared default is emitted (an unset defaulted field otherwise fails to encode).')
+    ' R7/R8 (imported from C08-R2/R3 and C10-R5): a value can only round-trip if the generated validators accept every valid value (bounds inclusive, Nullable delegating, constructors carrying every parameter and the Nullable wrap) and every declared default is emitted (an unset defaulted field otherwise fails to encode).'
+    ' RD (decision drift, stonelint.conddrift): the tests of the functions this property is anchored in (stonelint.ownership) are compared with reference/conditions.json; a relation, polarity or connective changed over the same operands, or an operand purely added or dropped, is a violation; re-spellings and new or removed tests are not claimed.')
 ASSUMPTIONS = [
     'new-style JSON only (old_style and msgpack excluded, as in the property)',
     'class-test atoms on a local refer to its value after the last assignment on the path',
@@ -497,3 +498,7 @@ def run(pm, ctx):
     ctx.import_rules(pm, 'C10', {'C10-R5'}, 'C04-R8',
                      'every declared default is emitted on the generated attribute (shared with '
                      'C10-R5)')
+
+    from ..conddrift import run_decisions
+    from ..ownership import OWN
+    run_decisions(pm, ctx, 'C04-RD', OWN['C04'])
